@@ -10,7 +10,9 @@ EXPLANATION = (
     ".T<->adjoint; (R16.2) attributes read from operands of unknown kind (dense | sparse | LinearOperator) are available on "
     "all three kinds; (R16.3) the square-only Kronecker routine is selected only under the all-square condition; (R16.4) "
     "_matvec/_matmat of one class perform the same accumulation; (R16.5) the mode-product routines move the axis that the "
-    "producer created. Decides these structural necessary conditions, not equality with dense matrices.")
+    "producer created, and all branches of the apply_tprod sweep (dense, sparse/operator, identity placeholder) address the same "
+    "axis (axis expressions compared as affine forms; a negative index is not len(ops)-1 because trailing axes are allowed). "
+    "Decides these structural necessary conditions, not equality with dense matrices.")
 DOES_NOT_DECIDE = "equality of any operator with its dense definition; solver accuracy"
 
 MOD = 'pyiga.operators'
